@@ -73,8 +73,11 @@ func genC16(o *Out, rng *rand.Rand, tier string) {
 		key = append(key, []byte(fmt.Sprint(args))...)
 		o.Emit(rec, cls, key, true)
 	}
+	// a trip over the wire, received the way a server receives: into a buffer that is then used for the next datagram
 	wire := func(d dhcpv6.DHCPv6) dhcpv6.DHCPv6 {
-		x, err := dhcpv6.FromBytes(d.ToBytes())
+		buf := d.ToBytes()
+		x, err := dhcpv6.FromBytes(buf)
+		reuse(buf)
 		if err != nil {
 			return d
 		}
@@ -120,7 +123,12 @@ func genC16(o *Out, rng *rand.Rand, tier string) {
 			// after a trip over the wire: the chain must come back as it was sent
 			before := chain
 			chain = wire(before)
-			emit("Wire", before, map[string]any{}, guard(func() map[string]any { return res6(dhcpv6.FromBytes(before.ToBytes())) }), "wire")
+			emit("Wire", before, map[string]any{}, guard(func() map[string]any {
+				buf := before.ToBytes()
+				x, err := dhcpv6.FromBytes(buf)
+				reuse(buf)
+				return res6(x, err)
+			}), "wire")
 		}
 		emit("Decap", chain, map[string]any{}, guard(func() map[string]any { return res6(dhcpv6.DecapsulateRelay(chain)) }), "decap")
 		emit("Inner", chain, map[string]any{}, guard(func() map[string]any {
@@ -130,6 +138,41 @@ func genC16(o *Out, rng *rand.Rand, tier string) {
 			}
 			return map[string]any{"ok": true, "v": proj6(m)}
 		}), "inner")
+		// the innermost message is found again after the chain has been edited (every level has been asked before)
+		if top, ok := chain.(*dhcpv6.RelayMessage); ok && i%3 == 0 {
+			var levels []*dhcpv6.RelayMessage
+			for cur := top; cur != nil; {
+				levels = append(levels, cur)
+				cur.GetInnerMessage()
+				next, _ := cur.Options.RelayMessage().(*dhcpv6.RelayMessage)
+				cur = next
+			}
+			last := levels[len(levels)-1]
+			newInner := innerMsg6(rng)
+			switch rng.Intn(3) {
+			case 0:
+				last.UpdateOption(dhcpv6.OptRelayMessage(newInner))
+			case 1: // the exported option list edited directly
+				for k, o := range last.Options.Options {
+					if o.Code() == dhcpv6.OptionRelayMsg {
+						last.Options.Options[k] = dhcpv6.OptRelayMessage(newInner)
+					}
+				}
+			default: // a copy of the outermost level given another relayed message
+				cp := *top
+				cp.Options.Options = append(dhcpv6.Options{}, top.Options.Options...)
+				cp.UpdateOption(dhcpv6.OptRelayMessage(newInner))
+				top = &cp
+			}
+			edited := top
+			emit("Inner", edited, map[string]any{}, guard(func() map[string]any {
+				m, err := edited.GetInnerMessage()
+				if err != nil || m == nil {
+					return map[string]any{"ok": false, "v": []any{}}
+				}
+				return map[string]any{"ok": true, "v": proj6(m)}
+			}), "inner-after-edit")
+		}
 		idx := pick(rng, -1, 0, 1, depth-1, depth, depth+3, -2, rng.Intn(17))
 		emit("DecapIndex", chain, map[string]any{"i": idx}, guard(func() map[string]any { return res6(dhcpv6.DecapsulateRelayIndex(chain, idx)) }), "decap")
 		reply := innerMsg6(rng)
